@@ -30,6 +30,7 @@ RULE = ("sequences of 10-22 residues with >= 3 of each charge and some neutrals 
         "prefix on the machine's own stream; step budget per run (quick 3000, thorough 30000) - over-budget runs are "
         "truncated: their steps are still judged, their files are not; distinct = distinct (sequence, configuration, tape); "
         "non-trivial = run with at least one accepted and one rejected in-range proposal")
+RULE += ("; added after the mutation rounds: 2-bin runs with a 2600-step first iteration (ln-DOS beyond 709.8); criterion 0.9 checked every 1-2 steps (streaks of >= 200 failing checks); a second run() on the same machine judged by a fresh shadow automaton; the first cases of every shard are judged again at its end")
 EXHAUSTIVE = {"quick": False, "thorough": False}
 ASSUMPTIONS = [
     "bin centres are (i+1/2)/M; a proposal is in range iff its bin index lies in [a, b-1] for the requested range [a/M, b/M]",
